@@ -8,14 +8,17 @@ open Nice.PTcp Nice.Gen Nice.Proofs.PTcp Std.Do
 
 set_option maxRecDepth 16000
 
+/-- the trimmed segment -/
+def trimmed (s0 : Sock) (seg : Segment) : Segment :=
+  trimRight s0.rcv_nxt s0.rbuf.getWriteRemaining (trimLeft s0.rcv_nxt seg)
+
 /-- `processData` after the "make room in the send queue" notification -/
-def pdMain (s0 : Sock) (seg : Segment) (p : Array UInt8) (rf : Bool) (clk : UInt32) : R (Bool × Sock) :=
-  let seg2 := trimRight s0.rcv_nxt s0.rbuf.getWriteRemaining (trimLeft s0.rcv_nxt seg)
-  do
-    let (s1, sflags, bNew) ← storeStage s0 (dropPre s0 seg2) p (ignoreData s0 seg2) (pdFlags s0 seg rf)
-    let s2 := { s1 with rcv_nxt := if rf then s1.rcv_nxt + 1 else s1.rcv_nxt }
-    let s3 ← attemptSend s2 sflags clk
-    pure (true, emitIf (bNew && s3.bReadEnable) s3 .readable)
+def pdMain (s0 : Sock) (seg : Segment) (p : Array UInt8) (rf : Bool) (clk : UInt32) : R (Bool × Sock) := do
+  let (s1, sflags, bNew) ←
+    storeStage s0 (dropPre s0 (trimmed s0 seg)) p (ignoreData s0 (trimmed s0 seg)) (pdFlags s0 seg rf)
+  let s2 := { s1 with rcv_nxt := if rf then s1.rcv_nxt + 1 else s1.rcv_nxt }
+  let s3 ← attemptSend s2 sflags clk
+  pure (true, emitIf (bNew && s3.bReadEnable) s3 .readable)
 
 theorem processData_eq' (s : Sock) (seg : Segment) (p : Array UInt8) (rf : Bool) (clk : UInt32) :
     processData s seg p rf clk = pdMain (pdPrep s) seg p rf clk := rfl
@@ -38,28 +41,199 @@ theorem storeStage_ignore (s : Sock) (seg : Segment) (p : Array UInt8) (sf : Sen
   unfold storeStage
   rw [if_pos (u32_pos h)]; rfl
 
+theorem ign_true (s0 : Sock) (seg2 : Segment) (hIgn : s0.support_fin_ack = false ∧ s0.shutdown ≠ .none) :
+    ignoreData s0 seg2 = true := by
+  unfold ignoreData
+  have : (!s0.support_fin_ack && s0.shutdown != .none) = true := by
+    rw [hIgn.1]; simp [hIgn.2]
+  rw [this, Bool.or_true]
+
+theorem ign_false (s0 : Sock) (seg2 : Segment) (hIgn : ¬ (s0.support_fin_ack = false ∧ s0.shutdown ≠ .none))
+    (hctl : (seg2.flags &&& cFLAG_CTL) = 0) : ignoreData s0 seg2 = false := by
+  unfold ignoreData
+  have h1 : (!s0.support_fin_ack && s0.shutdown != .none) = false := by
+    cases hfa : s0.support_fin_ack with
+    | true => rfl
+    | false =>
+      have : ¬ s0.shutdown ≠ .none := fun hx => hIgn ⟨hfa, hx⟩
+      have : s0.shutdown = .none := Classical.not_not.mp this
+      rw [this]; rfl
+  rw [h1, Bool.or_false, hctl]; rfl
+
+theorem trimmed_flags (s0 : Sock) (seg : Segment) : (trimmed s0 seg).flags = seg.flags := by
+  unfold trimmed; rw [trimRight_flags, trimLeft_flags]
+
+theorem trimmed_len0 (s0 : Sock) (seg : Segment) (h : seg.len = 0) : (trimmed s0 seg).len = 0 := by
+  unfold trimmed; exact trimRight_len0 _ _ _ (trimLeft_len0 _ _ h)
+
+theorem trimmed_old (s0 : Sock) (seg : Segment) (hn : s0.rcv_nxt.toNat < 2 ^ 31)
+    (h : seg.seq.toNat + seg.len.toNat ≤ s0.rcv_nxt.toNat) : (trimmed s0 seg).len = 0 := by
+  unfold trimmed; exact trimRight_len0 _ _ _ (trimLeft_old _ _ hn h)
+
+theorem trimmed_id (s0 : Sock) (seg : Segment) (h : seg.seq = s0.rcv_nxt)
+    (hl : seg.len.toNat ≤ s0.rbuf.getWriteRemaining) : trimmed s0 seg = seg := by
+  unfold trimmed; rw [trimLeft_id _ _ h, trimRight_id _ _ _ h hl]
+
 section
 variable {W : List UInt8} {D n : Nat}
 
-theorem mkRInvS {st0 : TcpState} (s' : Sock) (fok : FOk s'.rbuf) (pre : n + s'.rbuf.data ≤ W.length)
-    (com : ∀ i, i < s'.rbuf.data → byteAt s'.rbuf i = W.getD (n + i) 0)
-    (sync : (s'.support_fin_ack = false ∧ s'.shutdown ≠ .none) ∨ Sync W D n s'.rbuf s'.rcv_nxt s'.rlist)
-    (finp : s'.rcv_fin = 0 ∨ s'.rcv_fin.toNat = D + W.length) (ph : st0 ≠ .listen ∧ st0 ≠ .synSent)
-    (fin4 : Fin4 st0 → s'.support_fin_ack = true ∧ s'.rcv_nxt.toNat = D + W.length + 1)
-    (stk : s'.state = st0 ∨ s'.state = .closed) : RInvS W D n st0 s' :=
-  ⟨⟨fok, pre, com, sync, finp⟩, ph, fin4, stk⟩
+/-- an honest segment that lies entirely before `D + k` (`k ≤ rcv_nxt - D`) : every control segment, and every segment
+    once the FIN has been consumed -/
+theorem segOk_ctl_old (_hB : D + W.length + 2 < 2 ^ 31) (s0 : Sock) (seg : Segment) (p : Array UInt8)
+    (hseg : SegOk W D seg p) (hn : s0.rcv_nxt.toNat < 2 ^ 31) (hD : D ≤ s0.rcv_nxt.toNat)
+    (hctl : (seg.flags &&& cFLAG_CTL) ≠ 0) : (trimmed s0 seg).len = 0 := by
+  rcases hseg.ctl hctl with h0 | h0
+  · exact trimmed_len0 _ _ h0
+  · apply trimmed_old _ _ hn
+    rw [h0.1, h0.2]; show 0 + D ≤ _; omega
 
-/-- the stage between the store and `attempt_send`: invariant of the socket whose FIN (if `rf`) has been consumed -/
-theorem storeFin_rinv (hB : D + W.length + 2 < 2 ^ 31) (s0 : Sock) (seg : Segment) (p : Array UInt8) (rf : Bool)
+theorem segOk_fin_old (hB : D + W.length + 2 < 2 ^ 31) (s0 : Sock) (seg : Segment) (p : Array UInt8)
+    (hseg : SegOk W D seg p) (hnx : s0.rcv_nxt.toNat = D + W.length + 1) : (trimmed s0 seg).len = 0 := by
+  by_cases hctl : (seg.flags &&& cFLAG_CTL) = 0
+  · by_cases hl0 : seg.len = 0
+    · exact trimmed_len0 _ _ hl0
+    · apply trimmed_old _ _ (by omega)
+      have := (hseg.data hctl hl0).2.1; omega
+  · exact segOk_ctl_old hB s0 seg p hseg (by omega) (by omega) hctl
+
+theorem storeFin_ign (s0 : Sock) (seg2 : Segment) (p : Array UInt8) (sf : SendFlags) (st0 : TcpState)
+    (r : Sock × SendFlags × Bool)
+    (hc : RCore W D n s0) (hph : st0 ≠ .listen ∧ st0 ≠ .synSent) (hstk : s0.state = st0 ∨ s0.state = .closed)
+    (hIgn : s0.support_fin_ack = false ∧ s0.shutdown ≠ .none) (hnF : ¬ Fin4 st0) (hl : seg2.len ≠ 0)
+    (h : storeStage s0 seg2 p (ignoreData s0 seg2) sf = .ok r) : RInvS W D n st0 r.1 := by
+  rw [ign_true _ _ hIgn, storeStage_ignore _ _ _ _ hl] at h
+  cases h
+  exact ⟨⟨hc.fok, hc.pre, hc.com, Or.inl hIgn, hc.finp⟩, hph, fun hF => absurd hF hnF, hstk⟩
+
+/-- storing an honest data segment in the synchronised state -/
+theorem store_nonfin (hB : D + W.length + 2 < 2 ^ 31) (s0 : Sock) (seg : Segment) (p : Array UInt8) (sf : SendFlags)
+    (r : Sock × SendFlags × Bool) (hcn : RCn W D n s0.rbuf s0.rcv_nxt s0.rlist)
+    (hIgn : ¬ (s0.support_fin_ack = false ∧ s0.shutdown ≠ .none)) (hseg : SegOk W D seg p)
+    (hl : (trimmed s0 seg).len ≠ 0)
+    (h : storeStage s0 (trimmed s0 seg) p (ignoreData s0 (trimmed s0 seg)) sf = .ok r) :
+    ∃ rb nxt wnd rl, r.1 = { s0 with rbuf := rb, rcv_nxt := nxt, rcv_wnd := wnd, rlist := rl } ∧
+      RCn W D n rb nxt rl ∧
+      ((trimmed s0 seg).seq = s0.rcv_nxt → s0.rcv_nxt.toNat + (trimmed s0 seg).len.toNat ≤ nxt.toNat) := by
+  have hnx := hcn.nx
+  have hpre := hcn.pre
+  have hctl : (seg.flags &&& cFLAG_CTL) = 0 := by
+    apply Classical.byContradiction
+    intro hctl
+    exact hl (segOk_ctl_old hB s0 seg p hseg (by omega) (by omega) hctl)
+  have hl0 : seg.len ≠ 0 := fun e => hl (trimmed_len0 _ _ e)
+  have ⟨d1, d2, d3⟩ := hseg.data hctl hl0
+  have hso : StoreOk W D s0.rbuf s0.rcv_nxt (trimmed s0 seg) p := by
+    rcases trimLeft_good hB s0.rcv_nxt seg p (by omega) d1 d2 d3 with g | g
+    · exact absurd (trimRight_len0 _ _ _ g) hl
+    · rcases trimRight_good hB s0.rbuf hcn.fok s0.rcv_nxt _ p g with g2 | g2
+      · exact absurd g2 hl
+      · exact g2
+  rw [ign_false _ _ hIgn (by rw [trimmed_flags]; exact hctl)] at h
+  exact storeStage_rcn hB s0 _ p sf r hcn hl hso h
+
+/-- no FIN consumed by this segment: the store keeps the invariant -/
+theorem storeStage_rinv (hB : D + W.length + 2 < 2 ^ 31) (s0 : Sock) (seg : Segment) (p : Array UInt8)
     (sf : SendFlags) (st0 : TcpState) (r : Sock × SendFlags × Bool)
+    (hc : RCore W D n s0) (hph : st0 ≠ .listen ∧ st0 ≠ .synSent) (hstk : s0.state = st0 ∨ s0.state = .closed)
+    (hseg : SegOk W D seg p)
+    (hfin : Fin4 st0 → s0.support_fin_ack = true ∧ s0.rcv_nxt.toNat = D + W.length + 1)
+    (h : storeStage s0 (trimmed s0 seg) p (ignoreData s0 (trimmed s0 seg)) sf = .ok r) :
+    RInvS W D n st0 r.1 := by
+  by_cases hl : (trimmed s0 seg).len = 0
+  · rw [storeStage_len0 _ _ _ _ _ hl] at h
+    cases h
+    exact ⟨hc, hph, hfin, hstk⟩
+  · by_cases hIgn : s0.support_fin_ack = false ∧ s0.shutdown ≠ .none
+    · have hnF : ¬ Fin4 st0 := by
+        intro hF; have := (hfin hF).1; rw [hIgn.1] at this; cases this
+      exact storeFin_ign s0 _ p sf st0 r hc hph hstk hIgn hnF hl h
+    · have hsync : Sync W D n s0.rbuf s0.rcv_nxt s0.rlist := by
+        rcases hc.sync with h1 | h1
+        · exact absurd h1 hIgn
+        · exact h1
+      rcases hsync.1 with hnx | hnx
+      · have hcn : RCn W D n s0.rbuf s0.rcv_nxt s0.rlist := ⟨hc.fok, hc.pre, hc.com, hnx, hsync.2⟩
+        have hpre := hc.pre
+        have hnF : ¬ Fin4 st0 := by
+          intro hF; have := (hfin hF).2; omega
+        obtain ⟨rb, nxt, wnd, rl, e1, hcn', _⟩ := store_nonfin hB s0 seg p sf r hcn hIgn hseg hl h
+        rw [e1]
+        exact ⟨⟨hcn'.fok, hcn'.pre, hcn'.com, Or.inr ⟨Or.inl hcn'.nx, hcn'.ooo⟩, hc.finp⟩, hph,
+          fun hF => absurd hF hnF, hstk⟩
+      · exact absurd (segOk_fin_old hB s0 seg p hseg hnx.1) hl
+
+/-- the segment that completes the stream (`received_fin`): afterwards everything up to the FIN position is committed -/
+theorem storeStage_fin (hB : D + W.length + 2 < 2 ^ 31) (s0 : Sock) (seg : Segment) (p : Array UInt8)
+    (sf : SendFlags) (r : Sock × SendFlags × Bool) (hc : RCore W D n s0) (hseg : SegOk W D seg p)
+    (h1 : seg.seq = s0.rcv_nxt) (h2 : s0.rcv_nxt + seg.len = s0.rcv_fin)
+    (h3 : seg.len.toNat ≤ s0.rbuf.getWriteRemaining) (h4 : s0.rcv_nxt ≠ 0) (h5 : s0.support_fin_ack = true)
+    (h : storeStage s0 (trimmed s0 seg) p (ignoreData s0 (trimmed s0 seg)) sf = .ok r) :
+    RCn W D n r.1.rbuf r.1.rcv_nxt r.1.rlist ∧ r.1.rcv_nxt.toNat = D + W.length ∧
+      r.1.support_fin_ack = s0.support_fin_ack ∧ r.1.shutdown = s0.shutdown ∧ r.1.rcv_fin = s0.rcv_fin ∧
+      r.1.state = s0.state := by
+  have hIgn : ¬ (s0.support_fin_ack = false ∧ s0.shutdown ≠ .none) := by
+    intro hI; rw [h5] at hI; cases hI.1
+  have hsync : Sync W D n s0.rbuf s0.rcv_nxt s0.rlist := by
+    rcases hc.sync with h1 | h1
+    · exact absurd h1 hIgn
+    · exact h1
+  have hpre := hc.pre
+  have hid := trimmed_id s0 seg h1 h3
+  have hseq : seg.seq.toNat = s0.rcv_nxt.toNat := by rw [h1]
+  have hd : s0.rcv_nxt.toNat ≠ 0 := fun e0 => h4 (UInt32.toNat_inj.mp (by rw [e0]; rfl))
+  rcases hsync.1 with hnx | hnx
+  · have hcn : RCn W D n s0.rbuf s0.rcv_nxt s0.rlist := ⟨hc.fok, hc.pre, hc.com, hnx, hsync.2⟩
+    have hlenb : seg.len.toNat ≤ D + W.length := by
+      by_cases hl0 : seg.len = 0
+      · rw [hl0]; show 0 ≤ _; omega
+      · by_cases hctl : (seg.flags &&& cFLAG_CTL) = 0
+        · have := (hseg.data hctl hl0).2.1; omega
+        · rcases hseg.ctl hctl with h0 | h0
+          · exact absurd h0 hl0
+          · omega
+    have hsum : (s0.rcv_nxt + seg.len).toNat = s0.rcv_nxt.toNat + seg.len.toNat :=
+      add_toNat_of_lt _ _ (by omega)
+    have hend : s0.rcv_nxt.toNat + seg.len.toNat = D + W.length := by
+      rcases hc.finp with f0 | f0
+      · rw [f0] at h2
+        have : (s0.rcv_nxt + seg.len).toNat = 0 := by rw [h2]; rfl
+        omega
+      · rw [← h2, hsum] at f0; exact f0
+    by_cases hl : (trimmed s0 seg).len = 0
+    · rw [storeStage_len0 _ _ _ _ _ hl] at h
+      cases h
+      have hl' : seg.len.toNat = 0 := by rw [← hid, hl]; rfl
+      exact ⟨hcn, by show s0.rcv_nxt.toNat = _; omega, rfl, rfl, rfl, rfl⟩
+    · obtain ⟨rb, nxt, wnd, rl, e1, hcn', hmono⟩ := store_nonfin hB s0 seg p sf r hcn hIgn hseg hl h
+      rw [e1]
+      have hm := hmono (by rw [hid]; exact h1)
+      rw [hid] at hm
+      have hnx' := hcn'.nx
+      have hpre' := hcn'.pre
+      exact ⟨hcn', by simp only; omega, rfl, rfl, rfl, rfl⟩
+  · exfalso
+    have hl : seg.len = 0 := by rw [← hid]; exact segOk_fin_old hB s0 seg p hseg hnx.1
+    rw [hl] at h2
+    have b' : s0.rcv_nxt = s0.rcv_fin := by
+      rw [← h2]; apply UInt32.toNat_inj.mp; rw [UInt32.toNat_add, zero_toNat]
+      have := s0.rcv_nxt.toNat_lt; omega
+    rcases hc.finp with f0 | f0
+    · exact h4 (b'.trans f0)
+    · rw [← b'] at f0; omega
+
+theorem of_triple_pre {α : Type} {x : R α} {P : Prop} {Q : α → Prop} (h : ⦃⌜P⌝⦄ x ⦃⇓? a => ⌜Q a⌝⦄) (hp : P)
+    (a : α) (hx : x = .ok a) : Q a := by
+  have h' : ⦃⌜True⌝⦄ x ⦃⇓? a => ⌜Q a⌝⦄ := by intro _; exact h hp
+  exact of_triple h' a hx
+
+theorem pdMain_rinv (hB : D + W.length + 2 < 2 ^ 31) (s0 : Sock) (seg : Segment) (p : Array UInt8) (rf : Bool)
+    (clk : UInt32) (st0 : TcpState) (r : Bool × Sock)
     (hc : RCore W D n s0) (hph : st0 ≠ .listen ∧ st0 ≠ .synSent) (hstk : s0.state = st0 ∨ s0.state = .closed)
     (hseg : SegOk W D seg p)
     (hfin : rf = false → Fin4 st0 → s0.support_fin_ack = true ∧ s0.rcv_nxt.toNat = D + W.length + 1)
     (hrf : rf = true → seg.seq = s0.rcv_nxt ∧ s0.rcv_nxt + seg.len = s0.rcv_fin ∧
       seg.len.toNat ≤ s0.rbuf.getWriteRemaining ∧ s0.rcv_nxt ≠ 0 ∧ s0.support_fin_ack = true)
-    (h : storeStage s0 (dropPre s0 (trimRight s0.rcv_nxt s0.rbuf.getWriteRemaining (trimLeft s0.rcv_nxt seg))) p
-      (ignoreData s0 (trimRight s0.rcv_nxt s0.rbuf.getWriteRemaining (trimLeft s0.rcv_nxt seg))) sf = .ok r) :
-    RInvS W D n st0 { r.1 with rcv_nxt := if rf then r.1.rcv_nxt + 1 else r.1.rcv_nxt } := by
+    (h : pdMain s0 seg p rf clk = .ok r) : RInvS W D n st0 r.2 := by
   have hs1 : s0.state ≠ .listen := by
     rcases hstk with e | e <;> rw [e]
     · exact hph.1
@@ -68,181 +242,54 @@ theorem storeFin_rinv (hB : D + W.length + 2 < 2 ^ 31) (s0 : Sock) (seg : Segmen
     rcases hstk with e | e <;> rw [e]
     · exact hph.2
     · decide
+  unfold pdMain at h
   rw [dropPre_id _ _ hs1 hs2] at h
-  generalize hseg2 : trimRight s0.rcv_nxt s0.rbuf.getWriteRemaining (trimLeft s0.rcv_nxt seg) = seg2 at h
-  have hfl : seg2.flags = seg.flags := by rw [← hseg2, trimRight_flags, trimLeft_flags]
-  -- the FIN case: the segment is untouched by the trimming
-  have hid : rf = true → seg2 = seg := by
-    intro e
-    have ⟨a, _, c, _, _⟩ := hrf e
-    rw [← hseg2, trimLeft_id _ _ a, trimRight_id _ _ _ a c]
-  by_cases hIgn : s0.support_fin_ack = false ∧ s0.shutdown ≠ .none
-  · -- discard mode: nothing is committed any more
-    have hrf0 : rf = false := by
-      cases rf with
-      | false => rfl
-      | true => have := (hrf rfl).2.2.2.2; rw [hIgn.1] at this; cases this
-    subst hrf0
-    have hnF : ¬ Fin4 st0 := by
-      intro hF; have := (hfin rfl hF).1; rw [hIgn.1] at this; cases this
-    by_cases hl : seg2.len = 0
-    · rw [storeStage_len0 _ _ _ _ _ hl] at h
-      cases h
-      exact mkRInvS _ hc.fok hc.pre hc.com hc.sync hc.finp hph (fun hF => absurd hF hnF) hstk
-    · have hig : ignoreData s0 seg2 = true := by
-        unfold ignoreData
-        have : (!s0.support_fin_ack && s0.shutdown != .none) = true := by
-          rw [hIgn.1]; simp [hIgn.2]
-        rw [this, Bool.or_true]
-      rw [hig, storeStage_ignore _ _ _ _ hl] at h
-      cases h
-      exact mkRInvS _ hc.fok hc.pre hc.com (Or.inl hIgn) hc.finp hph (fun hF => absurd hF hnF) hstk
-  · have hsync : Sync W D n s0.rbuf s0.rcv_nxt s0.rlist := by
-      rcases hc.sync with h1 | h1
-      · exact absurd h1 hIgn
-      · exact h1
-    have hpre := hc.pre
-    rcases hsync.1 with hnx | hnx
-    · -- FIN not consumed yet
-      have hcn : RCn W D n s0.rbuf s0.rcv_nxt s0.rlist := ⟨hc.fok, hc.pre, hc.com, hnx, hsync.2⟩
-      have hnF : rf = false → ¬ Fin4 st0 := by
-        intro e hF; have := (hfin e hF).2; omega
-      -- what the FIN condition gives
-      have hfinpos : rf = true → seg.seq.toNat = s0.rcv_nxt.toNat ∧
-          s0.rcv_nxt.toNat + seg.len.toNat = D + W.length := by
-        intro e
-        have ⟨a, b, c, d, _⟩ := hrf e
-        have hseq : seg.seq.toNat = s0.rcv_nxt.toNat := by rw [a]
-        have hlenb : seg.len.toNat ≤ D + W.length := by
-          by_cases hl0 : seg.len = 0
-          · rw [hl0]; show 0 ≤ _; omega
-          · by_cases hctl : (seg.flags &&& cFLAG_CTL) = 0
-            · have := (hseg.data hctl hl0).2.1; omega
-            · rcases hseg.ctl hctl with h0 | h0
-              · exact absurd h0 hl0
-              · omega
-        have hsum : (s0.rcv_nxt + seg.len).toNat = s0.rcv_nxt.toNat + seg.len.toNat :=
-          add_toNat_of_lt _ _ (by omega)
-        have hd : s0.rcv_nxt.toNat ≠ 0 := fun e0 => d (UInt32.toNat_inj.mp (by rw [e0]; rfl))
-        rcases hc.finp with f0 | f0
-        · rw [f0] at b
-          have : (s0.rcv_nxt + seg.len).toNat = 0 := by rw [b]; rfl
-          omega
-        · rw [← b, hsum] at f0
-          exact ⟨hseq, f0⟩
-      by_cases hl : seg2.len = 0
-      · rw [storeStage_len0 _ _ _ _ _ hl] at h
-        cases h
-        cases rf with
-        | false =>
-          exact mkRInvS _ hc.fok hc.pre hc.com hc.sync hc.finp hph (fun hF => absurd hF (hnF rfl)) hstk
-        | true =>
-          have ⟨q1, q2⟩ := hfinpos rfl
-          have hl' : seg.len.toNat = 0 := by rw [← hid rfl, hl]; rfl
-          have hn1 : (s0.rcv_nxt + 1).toNat = s0.rcv_nxt.toNat + 1 := by
-            rw [add_toNat_of_lt _ _ (by rw [one_toNat]; omega), one_toNat]
-          refine mkRInvS _ hc.fok hc.pre hc.com (Or.inr ⟨Or.inr ⟨?_, ?_⟩, ?_⟩) hc.finp hph
-            (fun _ => ⟨(hrf rfl).2.2.2.2, ?_⟩) hstk
-          · simp only [if_true]; omega
-          · omega
-          · intro r hr
-            have hr' := hsync.2 r hr
-            refine ⟨hr'.1, ?_⟩
-            intro q a1 a2 a3
-            simp only [if_true] at a3
-            exact hr'.2 q a1 a2 (by omega)
-          · simp only [if_true]; omega
-      · -- something is stored: it is a data segment
-        have hig : ignoreData s0 seg2 = false := by
-          unfold ignoreData
-          have h1 : (!s0.support_fin_ack && s0.shutdown != .none) = false := by
-            cases hfa : s0.support_fin_ack with
-            | true => rfl
-            | false =>
-              have : ¬ s0.shutdown ≠ .none := fun hx => hIgn ⟨hfa, hx⟩
-              have : s0.shutdown = .none := Classical.not_not.mp this
-              rw [this]; rfl
-          rw [h1, Bool.or_false, hfl]
-          by_cases hctl : (seg.flags &&& cFLAG_CTL) = 0
-          · rw [hctl]; rfl
-          · exfalso
-            apply hl
-            rw [← hseg2]
-            apply trimRight_len0
-            rcases hseg.ctl hctl with h0 | h0
-            · exact trimLeft_len0 _ _ h0
-            · apply trimLeft_old _ _ (by omega)
-              rw [h0.1, h0.2]; show 0 + D ≤ _; omega
-        have hctl : (seg.flags &&& cFLAG_CTL) = 0 := by
-          unfold ignoreData at hig
-          rw [hfl] at hig
-          have := (Bool.or_eq_false_iff.mp hig).1
-          simpa using this
-        have hl0 : seg.len ≠ 0 := by
-          intro e; apply hl; rw [← hseg2]; exact trimRight_len0 _ _ _ (trimLeft_len0 _ _ e)
-        have ⟨d1, d2, d3⟩ := hseg.data hctl hl0
-        have hso : StoreOk W D s0.rbuf s0.rcv_nxt seg2 p := by
-          rcases trimLeft_good hB s0.rcv_nxt seg p (by omega) d1 d2 d3 with g | g
-          · exfalso; apply hl; rw [← hseg2]; exact trimRight_len0 _ _ _ g
-          · rcases trimRight_good hB s0.rbuf hc.fok s0.rcv_nxt _ p g with g2 | g2
-            · exfalso; apply hl; rw [← hseg2]; exact g2
-            · rw [hseg2] at g2; exact g2
-        rw [hig] at h
-        obtain ⟨rb, nxt, wnd, rl, e1, hcn', hmono⟩ := storeStage_rcn hB s0 seg2 p sf r hcn hl hso h
-        rw [e1]
-        have hnx' := hcn'.nx
-        have hpre' := hcn'.pre
-        cases rf with
-        | false =>
-          exact mkRInvS _ hcn'.fok hcn'.pre hcn'.com (Or.inr ⟨Or.inl hcn'.nx, hcn'.ooo⟩) hc.finp hph
-            (fun hF => absurd hF (hnF rfl)) hstk
-        | true =>
-          have ⟨q1, q2⟩ := hfinpos rfl
-          have hm := hmono (by rw [hid rfl]; exact (hrf rfl).1)
-          rw [hid rfl] at hm
-          have hn1 : (nxt + 1).toNat = nxt.toNat + 1 := by
-            rw [add_toNat_of_lt _ _ (by rw [one_toNat]; omega), one_toNat]
-          refine mkRInvS _ hcn'.fok hcn'.pre hcn'.com (Or.inr ⟨Or.inr ⟨?_, ?_⟩, ?_⟩) hc.finp hph
-            (fun _ => ⟨(hrf rfl).2.2.2.2, ?_⟩) hstk
-          · simp only [if_true]; omega
-          · simp only; omega
-          · intro r hr
-            have hr' := hcn'.ooo r hr
-            refine ⟨hr'.1, ?_⟩
-            intro q a1 a2 a3
-            simp only [if_true] at a3
-            exact hr'.2 q a1 a2 (by omega)
-          · simp only [if_true]; omega
-    · -- FIN already consumed: every honest segment is old
-      have hl : seg2.len = 0 := by
-        rw [← hseg2]
-        apply trimRight_len0
-        by_cases hl0 : seg.len = 0
-        · exact trimLeft_len0 _ _ hl0
-        · apply trimLeft_old _ _ (by omega)
-          by_cases hctl : (seg.flags &&& cFLAG_CTL) = 0
-          · have := (hseg.data hctl hl0).2.1; omega
-          · rcases hseg.ctl hctl with h0 | h0
-            · exact absurd h0 hl0
-            · rw [h0.1, h0.2]; show 0 + D ≤ _; omega
-      have hrf0 : rf = false := by
-        cases rf with
-        | false => rfl
-        | true =>
-          exfalso
-          have ⟨a, b, _, d, _⟩ := hrf rfl
-          have hl' : seg.len = 0 := by rw [← hid rfl]; exact hl
-          rw [hl'] at b
-          have b' : s0.rcv_nxt = s0.rcv_fin := by
-            rw [← b]; apply UInt32.toNat_inj.mp; rw [UInt32.toNat_add, zero_toNat]
-            have := s0.rcv_nxt.toNat_lt; omega
-          rcases hc.finp with f0 | f0
-          · exact d (b'.trans f0)
-          · rw [← b'] at f0; omega
-      subst hrf0
-      rw [storeStage_len0 _ _ _ _ _ hl] at h
-      cases h
-      exact mkRInvS _ hc.fok hc.pre hc.com hc.sync hc.finp hph (hfin rfl) hstk
+  obtain ⟨⟨s1, sflags, bNew⟩, hst, h⟩ := bind_ok h
+  simp only at h
+  have key : RInvS W D n st0 { s1 with rcv_nxt := if rf = true then s1.rcv_nxt + 1 else s1.rcv_nxt } := by
+    cases rf with
+    | false =>
+      have hi := storeStage_rinv hB s0 seg p _ st0 _ hc hph hstk hseg (hfin rfl) hst
+      simp only [Bool.false_eq_true, if_false]
+      exact hi
+    | true =>
+      have ⟨a1, a2, a3, a4, a5⟩ := hrf rfl
+      have ⟨hcn, b2, b3, b4, b5, b6⟩ := storeStage_fin hB s0 seg p _ _ hc hseg a1 a2 a3 a4 a5 hst
+      simp only at hcn b2 b3 b4 b5 b6
+      simp only [if_true]
+      have hn1 : (s1.rcv_nxt + 1).toNat = s1.rcv_nxt.toNat + 1 := by
+        rw [add_toNat_of_lt _ _ (by rw [one_toNat]; omega), one_toNat]
+      have hnx := hcn.nx
+      refine ⟨⟨hcn.fok, hcn.pre, hcn.com, Or.inr ⟨Or.inr ⟨?_, ?_⟩, ?_⟩, ?_⟩, hph, fun _ => ⟨?_, ?_⟩, ?_⟩
+      · show (s1.rcv_nxt + 1).toNat = _; omega
+      · show n + s1.rbuf.data = _; omega
+      · intro r hr
+        have hr' := hcn.ooo r hr
+        refine ⟨hr'.1, ?_⟩
+        intro q c1 c2 c3
+        have c3' : (s1.rcv_nxt + 1).toNat ≤ q := c3
+        exact hr'.2 q c1 c2 (by omega)
+      · show s1.rcv_fin = 0 ∨ _; rw [b5]; exact hc.finp
+      · show s1.support_fin_ack = true; rw [b3]; exact a5
+      · show (s1.rcv_nxt + 1).toNat = _; omega
+      · show s1.state = st0 ∨ _; rw [b6]; exact hstk
+  obtain ⟨s3, has, h⟩ := bind_ok h
+  have h3 := of_triple_pre (attemptSend_rspec W D n st0 _ sflags clk) key s3 has
+  simp only [pure, Except.pure] at h
+  cases h
+  exact ⟨⟨h3.core.fok, h3.core.pre, h3.core.com, h3.core.sync, h3.core.finp⟩, h3.ph, h3.fin4, h3.stk⟩
+
+theorem processData_rinv (hB : D + W.length + 2 < 2 ^ 31) (s : Sock) (seg : Segment) (p : Array UInt8) (rf : Bool)
+    (clk : UInt32) (st0 : TcpState) (r : Bool × Sock)
+    (hc : RCore W D n s) (hph : st0 ≠ .listen ∧ st0 ≠ .synSent) (hstk : s.state = st0 ∨ s.state = .closed)
+    (hseg : SegOk W D seg p)
+    (hfin : rf = false → Fin4 st0 → s.support_fin_ack = true ∧ s.rcv_nxt.toNat = D + W.length + 1)
+    (hrf : rf = true → seg.seq = s.rcv_nxt ∧ s.rcv_nxt + seg.len = s.rcv_fin ∧
+      seg.len.toNat ≤ s.rbuf.getWriteRemaining ∧ s.rcv_nxt ≠ 0 ∧ s.support_fin_ack = true)
+    (h : processData s seg p rf clk = .ok r) : RInvS W D n st0 r.2 := by
+  rw [processData_eq'] at h
+  have hc0 : RCore W D n (pdPrep s) := ⟨hc.fok, hc.pre, hc.com, hc.sync, hc.finp⟩
+  exact pdMain_rinv hB (pdPrep s) seg p rf clk st0 r hc0 hph hstk hseg hfin hrf h
 
 end
 
